@@ -244,6 +244,25 @@ pub fn c06_claimable(_chk: &FuChecker, w: &mut World, _g: &FuGhost, rec: &mut Re
 }
 
 pub fn c07_share(c: &FuCtx, rec: &mut Rec) {
+    // a stake earns from the next epoch on: whatever adds LP to a position (creation, top-up by the owner or through the
+    // pool manager) raises the *owner's* weight in effect from the next epoch by at least the LP added
+    if c.out.is_ok() && matches!(c.op, FuOp::CreatePos { .. } | FuOp::ExpandPos { .. } | FuOp::ProvideLock { .. } | FuOp::ProvideLockSingle { .. }) {
+        for p in &c.post.positions {
+            if !p.open {
+                continue;
+            }
+            let before = c.pre.positions.iter().find(|q| q.identifier == p.identifier).map(|q| q.lp_asset.amount.u128()).unwrap_or(0);
+            let now = p.lp_asset.amount.u128();
+            let (Some(owner), Some(li)) = (acc_index(c.w, &p.receiver), c.post.lp_index(&p.lp_asset.denom)) else { continue };
+            if now > before && owner < N_USERS {
+                rec.count("c07_stakes_judged");
+                let (w0, w1) = (c.pre.weight(owner, li, c.pre.cur + 1), c.post.weight(owner, li, c.post.cur + 1));
+                if w1 < w0 || w1 - w0 < now - before {
+                    rec.viol("C07_stake_not_weighted", format!("{:?}: position {} of user {owner} grew by {} LP but the owner's weight for the next epoch went {w0} -> {w1}", c.op, p.identifier, now - before));
+                }
+            }
+        }
+    }
     let FuOp::Claim { u, until } = c.op else { return };
     let Some(exp) = &c.expected else { return };
     if !c.out.is_ok() {
@@ -775,6 +794,11 @@ pub fn jobs_c05(tier: Tier) -> Vec<Job> {
     core.reward_denoms = vec!["lp1"];
     core.state_oracles = vec![c05_drain];
     let mut v = vec![explore_job(full, tier.pick(2, 3), Caps::default()), explore_job(core, tier.pick(3, 4), Caps::default())];
+    // more farms on one LP token than one page of the farm listing: claims, closes and withdrawals keep custody
+    let mut many = FuChecker::new("c05-fu-manyfarms", vec!["F6"], FAlpha::RewardCore, vec![c05_custody]);
+    many.max_farms = 12;
+    many.state_oracles = vec![c05_drain];
+    v.push(explore_job(many, tier.pick(2, 3), Caps::default()));
     // farm funding under the other fee configurations (zero fee, fee in the reward denom): every fund shape of the farm alphabet
     for (i, fee) in [("uusdc", 0u128), ("uom", 0), ("uusdc", 1000)].into_iter().enumerate() {
         let mut c = FuChecker::new(&format!("c05-fu-farms-feecfg{}", i + 1), vec!["F0", "F2"], FAlpha::Farms, vec![c05_custody]);
@@ -822,5 +846,9 @@ pub fn jobs_c11(tier: Tier) -> Vec<Job> {
     }
     let full = FuChecker::new("c11-fu-full", vec!["F2", "F3"], FAlpha::Full, vec![c11_farms]);
     v.push(explore_job(full, tier.pick(2, 3), Caps::default()));
+    // eleven farms on one LP token under a limit of twelve: the twelfth creation is accepted, the thirteenth is not
+    let mut many = FuChecker::new("c11-fu-manyfarms", vec!["F6"], FAlpha::Farms, vec![c11_farms]);
+    many.max_farms = 12;
+    v.push(explore_job(many, tier.pick(2, 3), Caps::default()));
     v
 }
